@@ -591,7 +591,7 @@ impl Parse for Closure {
         let content;
         let _ = braced!(content in input);
         let mut body = vec![];
-        for clause in content.parse_terminated::<Clause, Clause>(Clause::parse)? {
+        for clause in content.parse_terminated::<Clause, Token![,]>(Clause::parse)? {
             body.push(clause);
         }
         Ok(Closure { body })
